@@ -7,7 +7,7 @@ from ..oracle import equiv
 LEVEL = "model_checking"
 
 
-def judge(s, node, cname, result, error):
+def judge(s, node, cname, result, error, nb=None):
     """[(core, detail|Verdict)]; core '' carries the verdict of a passing transition."""
     if error is not None or result is None:
         return []
@@ -17,7 +17,7 @@ def judge(s, node, cname, result, error):
         return []
     if SG.arity_problems(rs):
         return []
-    nb = RW.neighbourhood(node)
+    nb = nb or RW.neighbourhood(node)
     if rs[0] != "=":
         return [(f"{cname}|equation-lost|{nb}", f"{SG.show(s)}  ->  {SG.show(rs)}")]
     out = []
@@ -41,7 +41,7 @@ def judge(s, node, cname, result, error):
 
 class V(steps.Visitor):
     def on_transition(self, acc, ctx, root, s, cname, rule, index, node, result, change, error):
-        for core, detail in judge(s, node, cname, result, error):
+        for core, detail in judge(s, node, cname, result, error, ctx.get("nb")):
             if core == "":
                 vd = detail
                 if "undecided" in vd.note:
@@ -51,7 +51,8 @@ class V(steps.Visitor):
                 else:
                     acc.count("decided" if vd.decided else "tested_only")
                 continue
-            acc.violation(core, {"text": ctx["text"], "trace": ctx["trace"], "cfg": cname, "index": index}, detail)
+            acc.violation(core, {"text": ctx["text"], "trace": ctx["trace"], "cfg": cname, "index": index,
+                                 "inplace": ctx.get("inplace", False)}, detail)
         if acc.n["transitions"] % 2000 == 1:
             acc.sample({"start": ctx["text"], "trace": ctx["trace"] + [[cname, index]]})
 
@@ -60,12 +61,15 @@ def run(tier, seed):
     texts, heavy = steps.start_texts(tier, "eqn")
     depth = 2 if tier == "quick" else 3
     acc = steps.run(V, texts, depth, "eqn", seed, heavy)
+    small = steps.small_texts("eqn") if tier == "quick" else texts[heavy:][::3]
+    acc.merge(steps.run(V, small, "inplace", "eqn", seed, 0, key="small"))  # live-tree mode, 2 steps
     cov = {
         "states": len(acc.keys),
         "transitions": acc.n["transitions"],
         "traces_validated_against_impl": acc.n["transitions"],
         "exhaustive": True,
-        "bound": {"start_texts": acc.n["start_texts"], "closure_depth": depth},
+        "bound": {"start_texts": len(texts), "closure_depth": depth, "inplace_start_texts": len(small)},
+        "inplace_transitions": acc.n["inplace_transitions"],
         "decided_by_degree_bound": acc.n["decided"],
         "tested_only": acc.n["tested_only"],
         "undecided_zero_sets_agree_not_proportional": acc.n["undecided"],
@@ -83,6 +87,23 @@ def run(tier, seed):
     ]
 
 
+def _replay_direct(case):
+    cur, s, cname, rule, index, node, result, change, error, nb = steps.replay_last(case)
+    return [(c, d) for c, d in judge(s, node, cname, result, error, nb) if c]
+
+
 def replay(case):
-    cur, s, cname, rule, index, node, result, change, error = steps.replay_last(case)
-    return [(c, d) for c, d in judge(s, node, cname, result, error) if c]
+    """direct replay of the recorded trace; if the recorded violation depends on state that rule objects
+    carried over from the exploration of the same seed, fall back to re-exploring that seed from fresh
+    rule objects (deterministic: rule objects are reset per seed)"""
+    want = case.get("_core")
+    try:
+        got = _replay_direct(case)
+    except Exception:  # noqa
+        got = []
+    if got and (want is None or any(c == want for c, _ in got)):
+        return got
+    again = steps.reexplore(case, V)
+    if want is not None and any(c == want for c, _ in again):
+        return [(c, d) for c, d in again if c == want]
+    return again or got
